@@ -109,3 +109,11 @@ def set_iteration_fixture_matches() -> bool:
   c.where = lambda mod, n: "fixture"
   lint.set_iteration(c, [fixture_module("set_iteration.py")])
   return len(c.bads) == 1
+
+
+def falsy_default_fixture_matches() -> bool:
+  from .rules import lint
+  c = _NullCtx(_FakeIndex())
+  c.where = lambda mod, n: "fixture"
+  lint.falsy_numeric_default(c, [fixture_module("falsy_default.py")])
+  return len(c.bads) == 1
